@@ -20,19 +20,31 @@ def check(rep, tier, rng):
                           "meta": {}, "kind": "catalogue", "perm": True})
         gi += 1
     texts = [c["text"] for c in cases]
-    # (1) same text, fresh processes (fresh hash seeds): byte-identical output
+    # (1) same text, fresh processes (fresh hash seeds), each process generating the texts in a different order (identity, reverse,
+    #     random): the output for a text is byte-identical whatever was generated before it in the same process — it is a function of
+    #     the text alone, not of the call history (a cache, a counter or a memo table surviving between calls would show here)
     nproc = 8
     reqs = ["gen d " + t3.hx(t) for t in texts[:: variants]]
+    orders = [list(range(len(reqs))), list(range(len(reqs)))[::-1]] + [rng.shuffle(list(range(len(reqs)))) for _ in range(nproc - 2)]
     outs = []
-    for _ in range(nproc):
-        p = subprocess.run([t3.FRONT], input="\n".join(reqs) + "\n", capture_output=True, text=True, env=ENV)
-        outs.append(p.stdout.split("\n")[:len(reqs)])
+    for order in orders:
+        p = subprocess.run([t3.FRONT], input="\n".join(reqs[j] for j in order) + "\n", capture_output=True, text=True, env=ENV)
+        lines = p.stdout.split("\n")[:len(reqs)]
+        back = [""] * len(reqs)
+        for pos, j in enumerate(order):
+            back[j] = lines[pos] if pos < len(lines) else "missing"
+        outs.append(back)
     nviol = 0
     for j, q in enumerate(reqs):
         if len({o[j] for o in outs}) != 1:
             nviol += 1
             if nviol <= 3:
-                rep.violation({"kind": "output differs between processes", "text": texts[j * variants]})
+                alone = subprocess.run([t3.FRONT], input=q + "\n", capture_output=True, text=True, env=ENV).stdout.split("\n")[0]
+                bad = next((k for k, o in enumerate(outs) if o[j] != alone), 0)
+                hist = [texts[i * variants] for i in orders[bad][:orders[bad].index(j)]]
+                rep.violation({"kind": "output depends on the calls made before it in the same process", "text": texts[j * variants],
+                               "history": hist, "alone": alone[:300], "after_history": outs[bad][j][:300],
+                               "how": "fxfront: `gen d <hex>` for each text of `history`, then for `text`, in one process; compare with `text` alone"})
     # (2) repeated and interleaved calls on one Generator value
     rr = run_lines([t3.FRONT], ["genrep 5 %s %s" % (t3.hx(texts[j]), t3.hx(texts[(j + 1) % len(texts)])) for j in range(0, len(texts), variants)])
     for j, r in enumerate(rr):
@@ -107,7 +119,7 @@ def check(rep, tier, rng):
     rep.cov.update({"evaluations": len(texts) + nproc * len(reqs) + len(rr) + len(k7) + len(ctexts), "distinct_nontrivial": len(distinct),
                     "traces_validated_against_impl": len(texts) + len(ctexts) - len(tie), "processes": nproc,
                     "rule": "%d declaration models x %d printings (random whitespace / comment layouts, shuffled declaration order) -> token-identical output and identical Ast; "
-                            "%d fresh processes on the same texts -> byte-identical; 5 repeated/interleaved calls on one Generator; model (T1) on every text; deep reference chains (6-14 declarations ending in an opaque) top-down / bottom-up / shuffled -> same set of items. distinct = distinct Asts" % (n, variants, nproc),
+                            "%d fresh processes generating the same texts in different orders (identity, reverse, random) -> byte-identical per text (history independence); 5 repeated/interleaved calls on one Generator; model (T1) on every text; deep reference chains (6-14 declarations ending in an opaque) top-down / bottom-up / shuffled -> same set of items. distinct = distinct Asts" % (n, variants, nproc),
                     "samples": [{"text": c["text"][:300], "mode": c["mode"]} for c in cases[:: max(1, len(cases) // 5)]][:5]})
     if tie and nviol == 0:
         c, det = tie[0]
@@ -117,6 +129,12 @@ def check(rep, tier, rng):
 
 def replay(rep, r):
     t3.build()
+    if "history" in r:
+        seq = subprocess.run([t3.FRONT], input="\n".join("gen d " + t3.hx(t) for t in r["history"] + [r["text"]]) + "\n", capture_output=True, text=True, env=ENV).stdout.split("\n")
+        alone = subprocess.run([t3.FRONT], input="gen d " + t3.hx(r["text"]) + "\n", capture_output=True, text=True, env=ENV).stdout.split("\n")[0]
+        same = seq[len(r["history"])] == alone
+        print("output after the history equals the output alone:", same)
+        return 0 if same else 1
     a = run_lines([t3.FRONT], ["gen d " + t3.hx(r.get("base_text", r.get("text", ""))), "gen d " + t3.hx(r.get("text", ""))])
     same = (t1.tokens(a[0][3:]) if a[0].startswith("ok ") else a[0]) == (t1.tokens(a[1][3:]) if a[1].startswith("ok ") else a[1])
     print("outputs token-identical:", same)
